@@ -1,6 +1,7 @@
 package props
 
 import (
+	"strconv"
 	"fmt"
 	"math/big"
 	"strings"
@@ -534,6 +535,71 @@ func C18(r *eng.Run) {
 	r.Bounds["threshold_pairs"] = len(thr)
 	r.Par(len(thr), func(w *eng.W, i int) { checkPow(w, thr[i][0], thr[i][1]) })
 	r.Phase("threshold exponents", t0, nil)
+
+	// amplified logarithm error: the tolerance grows with |y|, and so does the effect of the logarithm's own error.
+	// Bases at both ends and inside every slot of the two-digit logarithm table (ab.000..1, ab.5, ab.999..9, a finer
+	// sweep of the slots 10 and 95..99 where the series argument is largest), at several decimal magnitudes, against
+	// exponents that are fixed fractions (0.999, 1/2, 1/10, 1/100, both signs) of the exponent that reaches the
+	// overflow threshold: the allowed relative error is then the same for every base, and the result stays in range.
+	t0 = time.Now()
+	var slotBases []ref.Bits
+	nines := func(ab int64, n int) *big.Int { // ab followed by n nines
+		return new(big.Int).Sub(new(big.Int).Mul(big.NewInt(ab+1), ref.Pow10(n)), big.NewInt(1))
+	}
+	for ab := int64(10); ab <= 99; ab++ {
+		for _, k := range []int{-33, -32, -28, -40} {
+			addTo(&slotBases, false, nines(ab, 32), k) // ab.99..9 x 10^(k+32)
+		}
+		addTo(&slotBases, false, big.NewInt(ab*10+5), -2)
+		addTo(&slotBases, false, nines(ab, 3), -4)
+		addTo(&slotBases, false, nines(ab, 8), -3)
+	}
+	for _, s := range []string{"1.01", "1.02", "1.03", "1.04", "1.05", "1.06", "1.07", "1.08", "1.09", "1.091", "1.093", "1.095", "1.097", "1.099", "1.0999", "1.09999999", "1.096",
+		"0.951", "0.96", "0.97", "0.98", "0.99", "0.9501", "10.7", "109.9", "0.1099", "1.0999e-7", "1.0985e30", "9.51e-1", "9.6e4"} {
+		l, _ := ref.ParseLit(s)
+		addTo(&slotBases, false, l.C, l.Q)
+	}
+	slotBases = uniqBits(slotBases)
+	if !r.Thorough() {
+		var sub []ref.Bits
+		for i, b := range slotBases {
+			v := ref.Decode(b)
+			lead := new(big.Int).Quo(v.C, ref.Pow10(ref.NumDigits(v.C)-2)).Int64()
+			if i%3 == 0 || lead == 10 || lead >= 95 {
+				sub = append(sub, b)
+			}
+		}
+		slotBases = sub
+	}
+	var amp [][2]ref.Bits
+	for _, xb := range slotBases {
+		x := ref.Decode(xb)
+		ln := c.LnDec(x.C, x.Q)
+		if ln.Sign() == 0 {
+			continue
+		}
+		for _, frac := range []float64{0.999, 0.5, 0.1, 0.01, -0.999, -0.5, -0.1} {
+			yv := new(big.Float).SetPrec(hpP2).Quo(lnMax, ln)
+			yv.Mul(yv, big.NewFloat(frac))
+			s := new(big.Float).Abs(yv).Text('e', 33)
+			i := strings.IndexByte(s, 'e')
+			e, _ := strconv.Atoi(s[i+1:])
+			cc := bi(strings.Replace(s[:i], ".", "", 1))
+			if yb, ok := mk(yv.Sign() < 0, cc, e-33); ok {
+				amp = append(amp, [2]ref.Bits{xb, yb})
+			}
+			// the same magnitude as a short exponent (5 digits): a different path through the multiplication y*ln x
+			if yb, ok := mk(yv.Sign() < 0, new(big.Int).Quo(cc, ref.Pow10(29)), e-4); ok {
+				amp = append(amp, [2]ref.Bits{xb, yb})
+			}
+		}
+	}
+	r.Bounds["amplified_log_error_pairs"] = len(amp)
+	r.Par(len(amp), func(w *eng.W, i int) {
+		checkPow(w, amp[i][0], amp[i][1])
+		w.Cell("Pow/amplified-log-error", true)
+	})
+	r.Phase("amplified logarithm error", t0, nil)
 
 	// Pow == PowWithMode(Default)
 	t0 = time.Now()
